@@ -71,6 +71,30 @@ class Gen:
         r = self.r
         return [self.obj(depth) for _ in range(r.randint(1, nmax))]
 
+    def literal_heavy(self):
+        """samples whose literal sets come close to the limits and OVERLAP: a key holding p distinct short strings
+        (p around MAX_LITERALS = 15) with repeats, a list of strings drawing from the same pool, and two nested objects
+        that share most of their values (they meet again when the registry merges them)"""
+        r = self.r
+        p = r.choice([7, 9, 13, 14, 15, 15, 16, 17])
+        pool = [f"v{i}" for i in range(p)]
+        k1, k2, k3, k4 = r.sample(self.keys, 4)
+        out = []
+        order = pool + [r.choice(pool) for _ in range(r.randint(1, 4))]
+        if r.random() < 0.5:
+            r.shuffle(order)
+        half = p // 2 + 3
+        for i, s in enumerate(order):
+            o = {k1: s}
+            if r.random() < 0.3:
+                o[k2] = r.sample(pool, r.randint(1, min(p, 6)))
+            if r.random() < 0.25:
+                o[k3] = {"name": r.choice(pool[:half]), "id": i}
+            if r.random() < 0.25:
+                o[k4] = {"name": r.choice(pool[p - half:]), "id": i}
+            out.append(o)
+        return out
+
 
 def all_strings(v, acc=None):
     """every str value (not key) in a JSON value"""
